@@ -118,6 +118,15 @@ func (vc *VC) applyHints(loop int, at string, env *Env) {
 		case "assume":
 			vc.assumeNote(fmt.Sprintf("assume in %s: %s", vc.name, h.Src))
 			vc.addFact("trusted", imp(vc.guard(), vc.trBool(h.E, env)))
+		case "established":
+			// single-writer invariant of an atomic cell: sound if (a) only h.Writer stores into the cell
+			// (whole-module scan on every run) and (b) h.Writer proves the clause with the same label
+			if why := vc.prog.checkSingleWriter(vc.pkg.Path(), h.Writer, h.Field, h.Label); why != "" {
+				vc.unsupportedf("CONTRACT-UNRESOLVED established %s: %s", h.Label, why)
+				continue
+			}
+			vc.assumeNote(fmt.Sprintf("single-writer invariant %s of %s (only %s stores into it: scanned on every run; it proves the clause)", h.Label, h.Field, h.Writer))
+			vc.addFact("assume", imp(vc.guard(), vc.trBool(h.E, env)))
 		}
 	}
 }
@@ -297,6 +306,15 @@ func (vc *VC) loopMods(li *loopInfo) {
 				vc.modKeysOfStore(x.Addr, t, li.mods)
 			case *ssa.MapUpdate:
 				li.mods["#map"] = true
+			case *ssa.Next:
+				if r, ok := x.Iter.(*ssa.Range); ok {
+					if k, mt := vc.iterKey(r); mt != nil {
+						li.mods[k] = true
+						ck := strings.Replace(k, "#iter", "#itern", 1)
+						vc.heapKeySort(ck, types.Typ[types.Int])
+						li.mods[ck] = true
+					}
+				}
 			case *ssa.Send:
 				li.modAll = true
 			case *ssa.Select:
